@@ -38,6 +38,8 @@ def chk_three_way(case, note):
     v = int(m, 16)
     exp = crc24.parity(v >> 24, n - 24) if enc else crc24.remainder(v, n)
     got = call(pms.crc, m, enc) if enc else call(pms.crc, m)
+    if call(pms.crc, m, encode=enc) != got:
+        return "crc(%s, encode=%s) as a keyword -> %r, positional -> %r" % (m, enc, call(pms.crc, m, encode=enc), got)
     leg = call(py_common.crc_legacy, m, enc)
     note.cls("len%d" % n, "enc" if enc else "dec", "lower" if m != m.upper() else "upper")
     note.nt(v != 0)
